@@ -285,8 +285,15 @@ def run(ctx):
     n = ctx.scale(60, 400)
     for typ in geoms.TYPES:
         for i in range(n):
-            style = ["realistic", "dyadic", "edge", "degenerate"][i % 4]
-            spec = _degenerate(rng, typ) if style == "degenerate" else geoms.random_geom(rng, typ, style)
+            style = ["realistic", "dyadic", "edge", "degenerate", "tiny_far"][i % 5]
+            if style == "tiny_far":
+                # a few samples long / a fraction of a hertz wide, hours into a recording or high up the band: the extent is
+                # many orders of magnitude smaller than the coordinates themselves, and still not zero
+                t0 = rng.choice([10800.0, 3600.5, 86399.0]) + rng.randrange(0, 1 << 20) / (1 << 20)
+                f0 = rng.choice([40000.0, 191999.0, 4999990.0]) + rng.randrange(0, 1 << 10) / (1 << 10)
+                spec = geoms.geom_in_box(rng, typ, t0, t0 + rng.choice([2.0 ** -18, 1 / 384000, 3e-9 * t0]), f0, min(f0 + rng.choice([2.0 ** -15, 3e-5, 2e-9 * f0]), float(geoms.MAXF)))
+            else:
+                spec = _degenerate(rng, typ) if style == "degenerate" else geoms.random_geom(rng, typ, style)
             b = geoms.ref_bounds(spec)
             ctx.case((typ, style), spec, nontrivial=(b[2] > b[0] or (b[3] > b[1] and typ not in geoms.TIME_ONLY)))
             judge_with_siblings(ctx, spec)
